@@ -362,6 +362,44 @@ fn transports(store: &Path, text: &str, a: &MMappings, b: &MMappings) -> bool {
 	from_quill(&r, &mut ds).equiv(b)
 }
 
+/// Names that are NOT lookup names but lie next to one: every string that is not a plain version name or one half of an
+/// `a~b` name has to be refused by `get` (and by `get_all`), however close it is — a key with a `~`/`#` suffix or prefix,
+/// two halves of different versions glued together, the halves swapped, a whole `a~b` name, a proper prefix or suffix
+/// of a key, another letter case, a trailing blank or combining mark, a key with a file extension, whole file names.
+/// (Whether a generated string happens to be a key after all is decided by the reference reader, not here.)
+fn near_miss_queries(rng: &mut Rng, base: &[String], files: &[FileSpec]) -> Vec<String> {
+	let refg = RefGraph::of(files);
+	let mut keys: Vec<String> = refg.versions.iter().flat_map(|v| keys_of(v)).collect();
+	keys.sort(); keys.dedup();
+	let mut out: Vec<String> = vec![];
+	if keys.is_empty() { return out; }
+	let split: Vec<(String, String)> = refg.versions.iter().filter_map(|v| v.split_once('~').map(|(a, b)| (a.to_owned(), b.to_owned()))).collect();
+	for _ in 0..6 {
+		let k = rng.pick(&keys[..]).clone();
+		let o = rng.pick(&keys[..]).clone();
+		let cs: Vec<char> = k.chars().collect();
+		match rng.below(14) {
+			0 => out.push(format!("{k}~{o}")),
+			1 => out.push(format!("{k}~x")),
+			2 => { out.push(format!("{k}~")); out.push(format!("~{k}")); }
+			3 => { out.push(format!("{k}#{o}")); out.push(format!("{k}#")); out.push(format!("#{k}")); }
+			4 => if cs.len() >= 1 { out.push(cs[..cs.len() - 1].iter().collect()); out.push(cs[1..].iter().collect()); },
+			5 => out.push(format!("{k}{}", rng.pick(&[" ", "0", "\u{0301}", "\t", "\n", "\u{2003}", "-client", "-server"][..]))),
+			6 => { let f: String = k.chars().map(|c| if c.is_lowercase() { c.to_uppercase().next().unwrap_or(c) } else { c.to_lowercase().next().unwrap_or(c) }).collect(); out.push(f); }
+			7 => { out.push(format!("{k}{TINY}")); out.push(format!("{k}{TINYDIFF}")); }
+			8 => if split.len() >= 1 { let (a, b) = rng.pick(&split[..]).clone(); let (a2, b2) = rng.pick(&split[..]).clone();
+				out.push(format!("{a}~{b2}")); out.push(format!("{a2}~{b}")); out.push(format!("{b}~{a}")); out.push(format!("{a}~{b}~")); out.push(format!("{a}~{b} ")); },
+			9 => if split.len() >= 1 { let (a, b) = rng.pick(&split[..]).clone(); out.push(format!("{a}~{b}")); out.push(format!("{a}~{k}")); out.push(format!("{k}~{b}")); out.push(format!("{a}{b}")); },
+			10 => { let f = rng.pick(files); out.push(f.name.clone()); if let Some(x) = f.name.strip_suffix(TINYDIFF) { out.push(x.to_owned()); } }
+			11 => out.push(format!(" {k}")),
+			12 => if cs.len() >= 2 { let i = rng.below(cs.len() - 1); let mut d = cs.clone(); d.swap(i, i + 1); out.push(d.iter().collect()); },
+			_ => out.push(format!("{k}{k}")),
+		}
+	}
+	out.retain(|q| !base.contains(q));
+	out
+}
+
 fn gen_dir(rng: &mut Rng, r: &mut Report, store: &Path) -> DirSpec {
 	let sel = rng.below(108);
 	let shape = gen_shape(rng);
@@ -508,6 +546,9 @@ fn gen_dir(rng: &mut Rng, r: &mut Report, store: &Path) -> DirSpec {
 	for f in &files { let g = RefGraph::of(std::slice::from_ref(f)); for v in g.versions { queries.extend(keys_of(&v)); } }
 	queries.push("unknown".into()); queries.push(String::new()); queries.push("1.0~".into());
 	queries.sort(); queries.dedup();
+	let near = near_miss_queries(rng, &queries, &files);
+	queries.extend(near);
+	queries.sort(); queries.dedup();
 	// a directory cannot hold two files of the same name
 	let mut uniq: Vec<FileSpec> = vec![];
 	for f in files { if !uniq.iter().any(|g| g.name == f.name) { uniq.push(f); } }
@@ -570,6 +611,7 @@ fn through(spec: &DirSpec, scratch: &mut Scratch, rng: &mut Rng, r: &mut Report,
 	r.count(&format!("nodes:{}", refg.versions.len()));
 
 	let mut summaries: Vec<(Summary, Vec<usize>, Vec<String>)> = vec![];
+	let mut digests: Option<(Option<String>, Vec<String>)> = None;
 	let mut seen_listings: BTreeSet<Vec<String>> = BTreeSet::new();
 	for k in 0..orders {
 		let mut order: Vec<usize> = (0..spec.files.len()).collect();
@@ -652,6 +694,16 @@ fn through(spec: &DirSpec, scratch: &mut Scratch, rng: &mut Rng, r: &mut Report,
 			for ((qn, a), (_, g)) in o.applies.iter().zip(o.gets.iter()) {
 				if let Some((_, i)) = g { if dist[*i].is_none() && a.is_some() { vio(r, format!("apply_diffs({qn:?}) answered for {:?}, which cannot be reached from the root in the graph resolve built", o.nodes[*i].0)); } }
 			}
+			// a name is answered exactly if it is a lookup name: a plain version string or one half of an `a~b` string that
+			// some file name mentions (collisions decide WHICH node answers, never WHETHER) — everything else is refused
+			for (qn, g) in &o.gets {
+				let is_key = refg.versions.iter().any(|v| keys_of(v).iter().any(|k| k == qn));
+				if g.is_some() != is_key {
+					vio(r, if is_key { format!("get({qn:?}) is refused although it is a lookup name of the directory") }
+						else { format!("get({qn:?}) is answered with {:?} although no version of the directory has this lookup name", g.map(|(_, i)| &o.nodes[i].0)) });
+				}
+			}
+			r.count_n("oracle:lookup-refusal", o.gets.iter().filter(|g| g.1.is_none()).count() as u64);
 			for (l, a) in &o.getalls {
 				let want: Option<Vec<(u8, usize)>> = l.iter().map(|qn| o.gets.iter().find(|g| &g.0 == qn).and_then(|g| g.1)).collect();
 				if &want != a { vio(r, format!("get_all({l:?}) = {a:?}, the single gets give {want:?}")); }
@@ -661,6 +713,36 @@ fn through(spec: &DirSpec, scratch: &mut Scratch, rng: &mut Rng, r: &mut Report,
 				if matches!(x, Ok(None)) == edge { vio(r, format!("get_diff({:?}, {:?}) {} although there is {} edge", o.nodes[*a].0, o.nodes[*b].0, if edge { "finds nothing" } else { "reads a file" }, if edge { "an" } else { "no" })); }
 			}
 			r.count("oracle:own-graph-consistent");
+		}
+		// ---- EVERY directory (collisions of lookup names, non-confluent diamonds, malformed ones): nothing that can be
+		// observed of the graph — success, node order and depths, root, adjacency order, every lookup, every get_diff, and
+		// the mapping set apply_diffs answers for every lookup name — may depend on the order read_dir lists the files in
+		{
+			// (by NAME: node numbers and iteration orders are not part of any answer)
+			let digest: Option<String> = obs.as_ref().map(|o| {
+				let nm = |i: usize| o.nodes[i].0.clone();
+				let answers: Vec<(String, Option<u64>)> = o.applies.iter().map(|(q, a)| (q.clone(), a.as_ref().map(|m| tables.intern(m)))).collect();
+				let nodes: BTreeMap<String, usize> = o.nodes.iter().cloned().collect();
+				let mut edges: Vec<(String, String)> = vec![];
+				for (i, ch) in o.children.iter().enumerate() { for &c in ch { edges.push((nm(i), nm(c))); } }
+				edges.sort();
+				let mut back: Vec<(String, String)> = vec![];
+				for (i, ps) in o.parents.iter().enumerate() { for &p in ps { back.push((nm(p), nm(i))); } }
+				back.sort();
+				let gets: Vec<(String, Option<(u8, String)>)> = o.gets.iter().map(|(q, g)| (q.clone(), g.map(|(s, i)| (s, nm(i))))).collect();
+				let getalls: Vec<(Vec<String>, Option<Vec<(u8, String)>>)> = o.getalls.iter().map(|(l, a)| (l.clone(), a.as_ref().map(|v| v.iter().map(|(s, i)| (*s, nm(*i))).collect()))).collect();
+				let mut getdiffs: Vec<(String, String, Result<Option<String>, ()>)> = o.getdiffs.iter().map(|(a, b, x)| (nm(*a), nm(*b), x.clone())).collect();
+				getdiffs.sort();
+				format!("versions and depths {:?} root {:?} edges {:?} parents {:?} lookups {:?} answers (ids of equal mapping sets) {:?} get_all {:?} get_diff {:?}", nodes, nm(o.root), edges, back, gets, answers, getalls, getdiffs)
+			});
+			if let Some((first, first_listing)) = &digests {
+				if first != &digest {
+					let what = format!("the result depends on the listing order: {:?} versus {:?}{}", first_listing, listing,
+						match (first, &digest) { (Some(a), Some(b)) => { let (pa, pb): (Vec<&str>, Vec<&str>) = (a.split(" get_all ").collect(), b.split(" get_all ").collect()); if pa[0] != pb[0] { format!("\n  first:  {}\n  second: {}", pa[0], pb[0]) } else { String::new() } } _ => " (one resolve fails, the other succeeds)".into() });
+					vio(r, what);
+				}
+				r.count("oracle:listing-order-identical");
+			} else { digests = Some((digest, listing.clone())); }
 		}
 		// ---- property oracle (well-formed directories)
 		if !wf { continue; }
@@ -747,12 +829,24 @@ fn through(spec: &DirSpec, scratch: &mut Scratch, rng: &mut Rng, r: &mut Report,
 		let confluent = summaries.iter().all(|s| s.0.deterministic);
 		for k in 1..summaries.len() {
 			let (a, b) = (&summaries[0].0, &summaries[k].0);
-			let same = a.ok == b.ok && a.nodes == b.nodes && a.root == b.root && a.edges == b.edges && a.gets == b.gets && (!confluent || a.answers == b.answers);
+			let same = a.ok == b.ok && a.nodes == b.nodes && a.root == b.root && a.edges == b.edges && a.gets == b.gets && a.answers == b.answers;
 			if !same {
 				let what = format!("the result depends on the listing order: {:?} versus {:?}", summaries[0].2, summaries[k].2);
 				let t = replay_text(spec, &summaries[k].1, &summaries[k].2, &what); r.violation(what, t);
 			}
 			r.count(if confluent { "oracle:order-independent-with-answers" } else { "oracle:order-independent-graph" });
+			// a directory with two shortest paths that fold differently is the record of no history (C05_nonconfluent_no_history):
+			// which fold apply_diffs returns is petgraph's choice; measured here, not judged (see props/c05.py)
+			if !confluent && a.ok && b.ok {
+				if a.answers != b.answers {
+					r.count("nonconfluent:answer-depends-on-listing-order");
+					if !r.notes.iter().any(|n| n.starts_with("non-confluent directory")) {
+						let diff: Vec<&String> = a.answers.iter().zip(b.answers.iter()).filter(|(x, y)| x != y).map(|(x, _)| &x.0).collect();
+						r.notes.push(format!("non-confluent directory (two shortest paths with different folds; outside every history): apply_diffs of {:?} differs between listing orders {:?} and {:?}; files {:?}",
+							diff, summaries[0].2, summaries[k].2, spec.files.iter().map(|f| &f.name).collect::<Vec<_>>()));
+					}
+				} else { r.count("nonconfluent:answer-same-in-both-listing-orders"); }
+			}
 		}
 	}
 	Ok(())
@@ -799,7 +893,7 @@ pub fn run(ctx: &Ctx) -> anyhow::Result<Report> {
 	let mut rng = Rng::new(ctx.seed);
 	let mut scratch = Scratch::new(ctx.seed)?;
 	let repo = PathBuf::from(std::env::var("VERIF_REPO").unwrap_or_else(|_| "/repo".into()));
-	r.rule = "directories = rooted version graphs (chains, trees, DAGs with diamonds and shortcuts, confluent and non-confluent; plain and client~server names, tricky names) x edit histories on mapping sets (renames, additions, removals, comment edits at class/field/method/parameter level; edge files printed by the harness' own .tinydiff printer, root file written by quill) x file-creation orders (3-4 per directory: as generated, shuffled, shuffled with renames, and one on a second file system), plus the malformed shapes (no root, two roots, reachable/unreachable cycles, unreachable versions, unknown names, bad file names, unreadable contents) cycles among arbitrary versions (entered from outside at several members), extra edges between arbitrary versions in any direction, graphs of up to 10 versions, steps that edit many things below ONE class at once (name given or changed + comments + members + parameters in the same edge file), disturbed texts (lines with unknown tags at every nesting level, a second comment line, a parameter line with a source name, stray indentation, empty lines; these and the unreadable-root shapes always also as CInst), names ending in -client/-server, and lookup-name collisions. Every case also carries get_all of several name lists and get_diff of every node pair. Oracle: what apply_diffs must answer for a version of a good history is decided by the history alone (the harness' own diff, printer and inner-class extension; quill is not consulted), resolve must fail exactly on the malformed shapes (reference cycle search on the file names), and on EVERY directory (collisions included) the graph resolve reports about itself must be consistent: no cycle reachable from the root, depth = breadth-first distance, parents = inverse of children, unreachable versions never answered, get_all = the gets, get_diff = the edges. One correspondence case per distinct listing order actually observed through read_dir. Non-trivial = resolve succeeds with at least two nodes; distinct by (listing order, contents). Stream `instantiated`: every 12th (quick) / 20th (thorough) directory and the repository's fixture additionally as a CInst case — the real file contents as code points, evaluated by the INSTANTIATED model (C03 read, C11 contract/extend, C04 .tinydiff read/apply composed exactly as resolve/apply_diffs do) and compared with resolve's Ok/Err and with apply_diffs of every lookup name up to map order.".into();
+	r.rule = "directories = rooted version graphs (chains, trees, DAGs with diamonds and shortcuts, confluent and non-confluent; plain and client~server names, tricky names) x edit histories on mapping sets (renames, additions, removals, comment edits at class/field/method/parameter level; edge files printed by the harness' own .tinydiff printer, root file written by quill) x file-creation orders (3-4 per directory: as generated, shuffled, shuffled with renames, and one on a second file system), plus the malformed shapes (no root, two roots, reachable/unreachable cycles, unreachable versions, unknown names, bad file names, unreadable contents) cycles among arbitrary versions (entered from outside at several members), extra edges between arbitrary versions in any direction, graphs of up to 10 versions, steps that edit many things below ONE class at once (name given or changed + comments + members + parameters in the same edge file), disturbed texts (lines with unknown tags at every nesting level, a second comment line, a parameter line with a source name, stray indentation, empty lines; these and the unreadable-root shapes always also as CInst), names ending in -client/-server, and lookup-name collisions. Every case also carries get_all of several name lists and get_diff of every node pair. Lookups: besides every lookup name and every whole version string, each directory is asked for near misses derived from its own keys (a key with a ~/# suffix or prefix, two halves of different versions glued together, halves swapped, a proper prefix/suffix of a key, another letter case, a trailing blank/TAB/LF/combining mark, -client/-server appended, a key with .tiny/.tinydiff, whole file names, two adjacent characters swapped, the key doubled): on EVERY directory a name must be answered exactly if it is a lookup name (C05_get_err_iff). Listing order: on EVERY directory (collisions, non-confluent diamonds, malformed ones) everything observable by name — success, versions and depths, root, edges, every lookup, the mapping set apply_diffs answers for every name, get_all, get_diff — must be identical for all listing orders (C05_resolve_dir_perm); the model receives the listing as read_dir gave it and sorts it itself. Oracle: what apply_diffs must answer for a version of a good history is decided by the history alone (the harness' own diff, printer and inner-class extension; quill is not consulted), resolve must fail exactly on the malformed shapes (reference cycle search on the file names), and on EVERY directory (collisions included) the graph resolve reports about itself must be consistent: no cycle reachable from the root, depth = breadth-first distance, parents = inverse of children, unreachable versions never answered, get_all = the gets, get_diff = the edges. One correspondence case per distinct listing order actually observed through read_dir. Non-trivial = resolve succeeds with at least two nodes; distinct by (listing order, contents). Stream `instantiated`: every 12th (quick) / 20th (thorough) directory and the repository's fixture additionally as a CInst case — the real file contents as code points, evaluated by the INSTANTIATED model (C03 read, C11 contract/extend, C04 .tinydiff read/apply composed exactly as resolve/apply_diffs do) and compared with resolve's Ok/Err and with apply_diffs of every lookup name up to map order.".into();
 	r.notes.push(format!("scratch directories: {:?} (removed at exit)", scratch.bases));
 	if let Some(path) = &ctx.replay {
 		// a replay file written by an earlier run: the files between the `--- "name"` markers
